@@ -870,6 +870,10 @@ def _c03_target(case, p, meta, tdir, res, fex, jac, J, structural, q, NEQ, NNZ, 
             _csr_valid(case, res, q, rp, cv, NEQ, NNZ, tag, tdir)
         elif not structural:
             _unk(res, "C03", f"{tag}:csr", "CSR arrays not concrete")
+    # (b') the second evaluation on the same matrix (after SUNMatZero, as CVODE does before every evaluation) leaves
+    #      the same CSR arrays and solver-equal values as the first
+    if kind == "sparse" and NNZ and jac is not None and not jac.compile_errors:
+        _c03_second_call(case, p, tdir, res, q, NEQ, NNZ, tag)
     # (d) pattern file
     pf = os.path.join(p.tdir(tdir), "jac_pattern.dat")
     if os.path.exists(pf) and J is not None:
@@ -883,6 +887,56 @@ def _c03_target(case, p, meta, tdir, res, fex, jac, J, structural, q, NEQ, NNZ, 
             _viol(res, "C03", f"{tag}:pattern", f"jac_pattern.dat marks different entries than the Jacobian stores, e.g. {diff}", {"case": case.name, "target": tdir, "diff": diff})
         else:
             _ok(res, "C03")
+
+
+def _c03_second_call(case, p, tdir, res, q, NEQ, NNZ, tag):
+    try:
+        j2 = ode.run_jac(p, tdir, second_call=True)
+    except Inconclusive as e:
+        _unk(res, "C03", f"{tag}:second-call", str(e)[:200])
+        return
+    if j2.compile_errors or not getattr(j2, "first", None):
+        _unk(res, "C03", f"{tag}:second-call", "Jacobian does not compile / no first call recorded")
+        return
+    name = f"{tag}:second-call"
+    f = j2.first
+    bad = None
+    if list(j2.rowptrs) != list(f["rowptrs"]) or list(j2.colvals) != list(f["colvals"]):
+        k_ = next((i for i, (a, b) in enumerate(zip(list(j2.rowptrs) + list(j2.colvals), list(f["rowptrs"]) + list(f["colvals"]))) if str(a) != str(b)), None)
+        bad = f"index arrays after the second evaluation differ from the first (rowptrs[{NEQ}] = {j2.rowptrs[NEQ]}, first call {f['rowptrs'][NEQ]}; first difference at flat position {k_})"
+    else:
+        for i in range(NNZ):
+            a, b = j2.data_vals[i], f["data"][i]
+            if a is None or b is None:
+                if a is not b:
+                    bad = f"data[{i}] is written by one evaluation only"
+                    break
+                continue
+            r, m = q.differs(a, b)
+            if r == "sat":
+                bad = f"data[{i}] differs between the first and the second evaluation for equal inputs"
+                break
+            if r != "unsat":
+                _unk(res, "C03", f"{name}:data[{i}]", r)
+                return
+    if bad is None:
+        _ok(res, "C03")
+        return
+    # native confirmation: the replay binary evaluates twice on one matrix with the arrays cleared in between
+    detail = {"case": case.name, "target": tdir, "spec": _small_spec(case)}
+    try:
+        n = native.NativeEval(p, tdir)
+        macros = p.macros(tdir)
+        out = n.eval([1.0 + 0.25 * i for i in range(NEQ)], k=[0.5 + 0.125 * i for i in range(macros["NREACTIONS"])], kh=[0.25] * macros.get("NHEATPROCS", 0), kc=[0.125] * macros.get("NCOOLPROCS", 0))
+        same = out.get("rowptr2") == out["rowptr"] and all(out["csr2"][i][0] == out["csr"][i][0] and native.close(out["csr2"][i][1], out["csr"][i][1]) for i in out["csr"])
+        detail["native"] = {"rowptr_first": out["rowptr"], "rowptr_second": out.get("rowptr2"), "csr_first": {i: list(v) for i, v in list(out["csr"].items())[:12]}, "csr_second": {i: list(v) for i, v in list(out.get("csr2", {}).items())[:12]}}
+        if same:
+            _unk(res, "C03", name, f"symbolic execution says: {bad}; the native build evaluates identically twice")
+            res["errors"].append(f"{name}: non-reproducing counterexample")
+            return
+    except native.NativeError as e:
+        detail["native_error"] = str(e)[:300]
+    _viol(res, "C03", name, f"sparse Jacobian, evaluated a second time on the same matrix after SUNMatZero: {bad}", detail)
 
 
 def _csr_valid(case, res, q, rp, cv, NEQ, NNZ, tag, tdir):
